@@ -132,13 +132,15 @@ Definition fold_pairs {A} (size : nat) (ar : list (list A)) : list (list A) :=
 Definition apply_mask {A} (l : list A) (om : option (list bool)) : option (list A) :=
   match om with None => None | Some m => Some (mask_select l m) end.
 
-Definition combinations (groups : list (list note)) (size : nat) (make_size2 : bool)
+(* [ct] is the chord-size test: PtnFilterChord.filter, i.e. [chord_filter], in the code as it is *)
+Definition combinations_with (ct : nfilter -> list Z -> option bool)
+           (groups : list (list note)) (size : nat) (make_size2 : bool)
            (cf kf : option nfilter) (tf : option tfilter) : option (list (list (list note))) :=
   opt_bind
     (omap (fun chunk =>
         match cf with
         | None => Some (chunk, true)
-        | Some f => match chord_filter f (map (fun g => Z.of_nat (length g)) chunk) with
+        | Some f => match ct f (map (fun g => Z.of_nat (length g)) chunk) with
                     | None => None | Some b => Some (chunk, b) end
         end) (chunks size groups))
     (fun flagged =>
@@ -158,6 +160,8 @@ Definition combinations (groups : list (list note)) (size : nat) (make_size2 : b
   let combo_list := filter (fun c => negb (length c =? 0)%nat) combo_list in
   Some (if make_size2 then map (fold_pairs size) combo_list else combo_list))).
 
+Definition combinations := combinations_with chord_filter.
+
 (* ---------------------------------------------------------------- templates *)
 Definition template_jacks (groups : list (list note)) (minimum_length keys : Z)
   : option (list (list (list note))) :=
@@ -170,13 +174,15 @@ Definition template_jacks (groups : list (list note)) (minimum_length keys : Z)
     | _, _ => None
     end.
 
-Definition template_chord_stream (groups : list (list note)) (primary secondary keys : Z)
+Definition template_chord_stream_with (ct : nfilter -> list Z -> option bool)
+           (groups : list (list note)) (primary secondary keys : Z)
            (and_lower include_jack : bool) : option (list (list (list note))) :=
   match chord_create (In2 2 [[primary; secondary]]) keys (if and_lower then 3 else 0) false,
         (if include_jack then Some None
          else match combo_create (In2 2 [[0; 0]]) keys 1 true with
               | Some f => Some (Some f) | None => None end),
         type_create (In2 2 [[TTail; TObject]]) 1 true with
-  | Some cf, Some kf, Some tf => combinations groups 2 true (Some cf) kf (Some tf)
+  | Some cf, Some kf, Some tf => combinations_with ct groups 2 true (Some cf) kf (Some tf)
   | _, _, _ => None
   end.
+Definition template_chord_stream := template_chord_stream_with chord_filter.
